@@ -191,10 +191,63 @@ func genFileSet(h *vh.H, adv bool) *descriptorpb.FileDescriptorSet {
 	for _, m := range g.msgs {
 		g.fillMsg(m)
 	}
+	if g.chance(1, 5) {
+		g.flattenChain()
+	}
 	for _, f := range g.files {
 		g.addComments(f)
 	}
 	return &descriptorpb.FileDescriptorSet{File: g.files}
+}
+
+// flattenChain appends to the first file a chain of 3..5 messages, each flattening the next
+// ((j5.ext.v1.field).object / .message flatten), with siblings before and after the flattened field
+// and two or three leaves of different kinds in the innermost message; all JSON names distinct, so
+// the head's client properties are the leaves and siblings of every level with paths of growing
+// length.
+func (g *gen) flattenChain() {
+	depth := 3 + g.h.Rng.IntN(3)
+	f0 := g.files[0]
+	g.addImport(0, depJ5)
+	base := g.freshName("Chain")
+	kinds := []K{kString, kInt32, kBool, kInt64, kDouble, kBytes}
+	name := func(l int) string { return fmt.Sprintf("%sL%d", base, l) }
+	for l := 0; l <= depth; l++ {
+		dp := &descriptorpb.DescriptorProto{Name: proto.String(name(l))}
+		num := int32(1)
+		add := func(f *descriptorpb.FieldDescriptorProto) {
+			f.JsonName = proto.String(protocJSONName(f.GetName()))
+			dp.Field = append(dp.Field, f)
+			num += int32(1 + g.h.Rng.IntN(2))
+		}
+		scalar := func(tag string) {
+			add(&descriptorpb.FieldDescriptorProto{Name: proto.String(fmt.Sprintf("%s_l%d_%d", tag, l, num)), Number: proto.Int32(num),
+				Type: kinds[g.h.Rng.IntN(len(kinds))].Enum(), Label: descriptorpb.FieldDescriptorProto_LABEL_OPTIONAL.Enum()})
+		}
+		if l == depth {
+			for i := 0; i < 2+g.h.Rng.IntN(2); i++ {
+				scalar("leaf")
+			}
+		} else {
+			if g.chance(1, 2) {
+				scalar("pre")
+			}
+			fo := &ext_j5pb.FieldOptions{Type: &ext_j5pb.FieldOptions_Object{Object: &ext_j5pb.ObjectField{Flatten: true}}}
+			if g.chance(1, 3) {
+				fo = &ext_j5pb.FieldOptions{Type: &ext_j5pb.FieldOptions_Message{Message: &ext_j5pb.MessageField{Flatten: true}}}
+			}
+			ff := &descriptorpb.FieldDescriptorProto{Name: proto.String(fmt.Sprintf("next_l%d", l)), Number: proto.Int32(num),
+				Type: kMessage.Enum(), Label: descriptorpb.FieldDescriptorProto_LABEL_OPTIONAL.Enum(),
+				TypeName: proto.String("." + f0.GetPackage() + "." + name(l+1)), Options: &descriptorpb.FieldOptions{}}
+			proto.SetExtension(ff.Options, ext_j5pb.E_Field, fo)
+			add(ff)
+			if g.chance(2, 3) {
+				scalar("post")
+			}
+		}
+		f0.MessageType = append(f0.MessageType, dp)
+	}
+	g.h.Count("gen.flatten-chain")
 }
 
 func (g *gen) declMsg(fi int, parent *gMsg, depth int) *gMsg {
@@ -254,8 +307,17 @@ func (g *gen) declEnum(fi int, parent *gMsg) *gEnum {
 			for _, k := range infoKeys {
 				info[k] = g.pick([]string{"red", "blue", "", "1", "x y"})
 			}
+			if g.chance(1, 3) {
+				// a key the enum's info_fields do not declare: nothing checks keys against the
+				// declaration, the entry is part of the schema and of its export
+				info["pantone"] = g.pick([]string{"17-1463", "x"})
+			}
 			v.Options = &descriptorpb.EnumValueOptions{}
 			proto.SetExtension(v.Options, ext_j5pb.E_EnumValue, &ext_j5pb.EnumValueOptions{Info: info})
+		} else if len(infoKeys) == 0 && g.chance(1, 8) {
+			// option info on an enum without info_fields
+			v.Options = &descriptorpb.EnumValueOptions{}
+			proto.SetExtension(v.Options, ext_j5pb.E_EnumValue, &ext_j5pb.EnumValueOptions{Info: map[string]string{"note": "n"}})
 		} else if g.chance(1, 10) {
 			v.Options = &descriptorpb.EnumValueOptions{}
 			proto.SetExtension(v.Options, ext_j5pb.E_EnumValue, &ext_j5pb.EnumValueOptions{Description: "d"})
